@@ -49,6 +49,8 @@ class Recorder:
         self.reduce_spans = []
         self.simp_origin = {}
         self.cur_task = {}
+        self.fallback_active = False
+        self.fallback_seq0 = None
         self.passes = {}
         self.max_tokens = 0
         self.last_task_main = None
@@ -248,6 +250,37 @@ class Recorder:
             if self.spec.get('stop_after_writes') == self.rewrites_done:
                 from . import sched
                 raise sched.StopRun()
+
+    # -- fallback when the write probe is not in place (renamed function): the
+    # rewrite window and the written content are taken from the file seam ------
+    def fallback_begin(self):
+        if self.rewrite_depth == 0 and not self.fallback_active:
+            me = CTX.S.me()
+            if me is None or not me.is_main:
+                return
+            self.fallback_active = True
+            self.fallback_seq0 = self.seq()
+            self.rewrite_in_progress = True
+            self.rewrite_windows.append([CTX.S.main.nyield, None])
+            self.count('write_probe_fallback')
+
+    def fallback_end(self):
+        if not self.fallback_active:
+            return
+        self.fallback_active = False
+        self.rewrite_in_progress = False
+        self.rewrites_done += 1
+        self.rewrite_windows[-1][1] = CTX.S.main.nyield
+        data = self.read_out()
+        self.complete_texts.append(data)
+        toks = reftok.tokenize((data or b'').decode(errors='replace'))
+        d = self.dig(toks)
+        self.writes.append({
+            'idx': len(self.writes), 'actor': 'main', 'dig': d, 'sdig': d,
+            'ddmin_task': None, 'seq0': self.fallback_seq0,
+            'seq1': self.seq(), 'completed': True, 'dup': None,
+            'file_dig': d, 'fallback': True,
+        })
 
     def abort_rewrite(self):
         """The rewrite was left by an exception (interrupt)."""
